@@ -7,7 +7,11 @@
     verif_n_ == 0 ? VERIF_ALLOC_K(T, 0) : verif_n_ == 1 ? VERIF_ALLOC_K(T, 1) : verif_n_ == 2 ? VERIF_ALLOC_K(T, 2) : verif_n_ == 3 ? VERIF_ALLOC_K(T, 3) : \
     verif_n_ == 4 ? VERIF_ALLOC_K(T, 4) : verif_n_ == 5 ? VERIF_ALLOC_K(T, 5) : verif_n_ == 6 ? VERIF_ALLOC_K(T, 6) : verif_n_ == 7 ? VERIF_ALLOC_K(T, 7) : (T *)0; \
     __CPROVER_assume(verif_n_ <= 7 && verif_p_ != NULL); verif_p_; })
+#ifdef RO_BIG
+#define RO_MAXN 5
+#else
 #define RO_MAXN 4
+#endif
 int ro_n;                         /* number of variables */
 int ro_cur[RO_MAXN + 2];          /* the forest's current order: variable at each level (1..n) */
 unsigned ro_swaps;
